@@ -71,6 +71,17 @@ def SpanDistinct : List RNode → Prop
   | k :: ks => SpanDistinctNode k ∧ SpanDistinct ks
 end
 
+mutual
+/-- the start positions of a resolved node and of everything below it; in a parse they are pairwise distinct
+(`C04.construct_starts_nodup`), which is how the code's identity tests (`is`) read in the model -/
+def rstartsNode : RNode → List Nat
+  | .tag t => [t.span.1]
+  | .group s ks => s.1 :: rstartsList ks
+def rstartsList : List RNode → List Nat
+  | [] => []
+  | k :: ks => rstartsNode k ++ rstartsList ks
+end
+
 /-- the forest with its own sibling list -/
 def SpansOK (l : List RNode) : Prop := SpanDistinct l ∧ (l.map nodeSpan).Nodup
 
@@ -121,7 +132,7 @@ the schema-based rules see `Core`; phases 1 and 2 read the text of the tag itsel
 structure TagRel (env : Env) (R : RTag → RTag → Prop) : Prop where
   core : ∀ t t', R t t' → Core t t'
   slash : ∀ t t', R t t' → errCodes (slashIssues t) = errCodes (slashIssues t')
-  chars : ∀ t t', R t t' → errCodes (tagCharIssues env true t) = errCodes (tagCharIssues env true t')
+  chars : ∀ t t', R t t' → ∀ ph, errCodes (tagCharIssues env ph t) = errCodes (tagCharIssues env ph t')
   recanon : ∀ t t', R t t' → R (canon env t).1 (canon env t').1
   lookup : ∀ t t', R t t' → errCodes (canon env t).2 = errCodes (canon env t').2
 
@@ -131,7 +142,7 @@ resolved tag up again changes nothing -/
 structure Respelled (env : Env) (t t' : RTag) : Prop where
   core : Core t t'
   slash : errCodes (slashIssues t) = errCodes (slashIssues t')
-  chars : errCodes (tagCharIssues env true t) = errCodes (tagCharIssues env true t')
+  chars : ∀ ph, errCodes (tagCharIssues env ph t) = errCodes (tagCharIssues env ph t')
   stable : (canon env t).1 = t ∧ (canon env t').1 = t'
 
 /-- `p` is what `parse` builds from its first tree -/
@@ -139,8 +150,8 @@ def ParsedWF (env : Env) (p : Parsed) : Prop :=
   p.root1 = (recanonList env p.root0).1 ∧ p.lookup = (recanonList env p.root0).2
 
 /-- the rules that read the raw text only -/
-def textIssues (env : Env) (text : Str) : List Issue :=
-  charIssues env true text ++ parenIssues text ++ delimIssues env.cd text
+def textIssues (env : Env) (ph : Bool) (text : Str) : List Issue :=
+  charIssues env ph text ++ parenIssues text ++ delimIssues env.cd text
 
 /-- the definitions in use expand to admissible tags -/
 def DefsOK (env : Env) (P : Dup.Tag → Prop) : Prop :=
